@@ -199,7 +199,10 @@ func (m *roaManager) HandleROAEvent(ev *roaEvent) {
 		// c) already reconnected and received EndOfData so
 		// all stale ROAs were deleted -> timer was cancelled
 		// so should not be here.
-		if client.oldSessionID != client.sessionID {
+		//
+		// End of Data stops the timer and forgets it; a timeout that was
+		// already on its way when that happened is void as well.
+		if client.timer == nil || client.oldSessionID != client.sessionID {
 			m.logger.Info("Reconnected, ignore timeout",
 				slog.String("Topic", "rpki"),
 				slog.String("Key", client.host),
